@@ -3,6 +3,8 @@
 package sonic
 
 import (
+	"net"
+
 	"github.com/talostrading/sonic/internal"
 	"github.com/talostrading/sonic/internal/vf"
 	"github.com/talostrading/sonic/internal/vsys/vkernel"
@@ -27,8 +29,21 @@ type wOp struct {
 	gen     int // generation of the object's direction when started
 }
 
+// object kinds of the reactor world
+const (
+	wkFile     = iota // sonic file/conn over a stream socket, pipe end or regular file (vkernel.Kind says which)
+	wkListener        // read direction = AsyncAccept
+	wkPacket          // packetConn: AsyncReadFrom / AsyncWriteTo
+	wkAdapter         // AsyncAdapter over a net.Conn-like descriptor
+)
+
 type wObj struct {
 	f      *file
+	l      *listener
+	pc     *packetConn
+	ad     *AsyncAdapter
+	what   int
+	slot   *internal.Slot
 	fd     int
 	kind   vkernel.Kind
 	closed bool
@@ -49,6 +64,36 @@ type world struct {
 	polls   int
 }
 
+// newWorldOf builds a world whose object 0 is of the given reactor kind (object 1 is a stream file).
+func newWorldOf(cfg vkernel.Config, what int) *world {
+	w := newWorld(cfg, [2]vkernel.Kind{vkernel.KStream, vkernel.KStream})
+	if what == wkFile {
+		return w
+	}
+	// replace object 0
+	old := &w.objs[0]
+	old.f.Close()
+	o := wObj{what: what, cur: [2]int{-1, -1}}
+	o.buf[0], o.buf[1] = make([]byte, 4), make([]byte, 4)
+	switch what {
+	case wkListener:
+		o.fd, o.kind = vkernel.NewListener(), vkernel.KListen
+		o.l = &listener{ioc: w.ioc, slot: internal.Slot{Fd: o.fd}}
+		o.slot = &o.l.slot
+	case wkPacket:
+		o.fd, o.kind = vkernel.NewDgram(), vkernel.KDgram
+		o.pc = &packetConn{ioc: w.ioc, slot: internal.Slot{Fd: o.fd}}
+		o.slot = &o.pc.slot
+	case wkAdapter:
+		o.fd, o.kind = vkernel.NewStream(), vkernel.KStream
+		NewAsyncAdapter(w.ioc, c02NetConn{o.fd}, c02NetConn{o.fd}, func(err error, a *AsyncAdapter) { o.ad = a })
+		vf.Assume(o.ad != nil)
+		o.slot = &o.ad.slot
+	}
+	w.objs[0] = o
+	return w
+}
+
 func newWorld(cfg vkernel.Config, kinds [2]vkernel.Kind) *world {
 	vkernel.Reset(cfg)
 	w := &world{}
@@ -67,6 +112,7 @@ func newWorld(cfg vkernel.Config, kinds [2]vkernel.Kind) *world {
 			fd = vkernel.NewRegularFile()
 		}
 		w.objs[i] = wObj{f: newFile(w.ioc, fd), fd: fd, kind: kinds[i], cur: [2]int{-1, -1}}
+		w.objs[i].slot = &w.objs[i].f.slot
 		w.objs[i].buf[0] = make([]byte, 4)
 		w.objs[i].buf[1] = make([]byte, 4)
 	}
@@ -127,6 +173,9 @@ func (w *world) canStart(i, dir int) bool {
 	if dir == wWrite && o.kind == vkernel.KPipeR {
 		return false
 	}
+	if dir == wWrite && o.what == wkListener {
+		return false
+	}
 	return true
 }
 
@@ -140,6 +189,35 @@ func (w *world) start(i, dir int, all bool) {
 	o := &w.objs[i]
 	o.cur[dir] = id
 	cb := w.callback(id)
+	switch o.what {
+	case wkListener:
+		o.l.AsyncAccept(func(err error, c Conn) {
+			if c != nil {
+				c.Close() // the accepted connection is not part of this world
+			}
+			cb(err, 0)
+		})
+		return
+	case wkPacket:
+		if dir == wRead {
+			o.pc.AsyncReadFrom(o.buf[0], func(err error, n int, from net.Addr) { cb(err, n) })
+		} else {
+			o.pc.AsyncWriteTo(o.buf[1], &net.UDPAddr{IP: net.IP{10, 0, 0, 1}, Port: 9}, func(err error) { cb(err, 0) })
+		}
+		return
+	case wkAdapter:
+		switch {
+		case dir == wRead && all:
+			o.ad.AsyncReadAll(o.buf[0], cb)
+		case dir == wRead:
+			o.ad.AsyncRead(o.buf[0], cb)
+		case all:
+			o.ad.AsyncWriteAll(o.buf[1], cb)
+		default:
+			o.ad.AsyncWrite(o.buf[1], cb)
+		}
+		return
+	}
 	switch {
 	case dir == wRead && all:
 		o.f.AsyncReadAll(o.buf[0], cb)
@@ -160,7 +238,7 @@ func (w *world) armed(i, dir int) bool {
 		bit = internal.PollerWriteEvent
 		kbit = vkernel.EPOLLOUT
 	}
-	if o.f.slot.Events&bit == 0 {
+	if o.slot.Events&bit == 0 {
 		return false
 	}
 	reg, ev := vkernel.Registered(w.epfd, o.fd)
@@ -175,7 +253,14 @@ func (w *world) cancel(i int) {
 	var inflight [2]int
 	inflight[0], inflight[1] = o.cur[0], o.cur[1]
 	ctl0 := vkernel.K.Log.CtlFail
-	o.f.Cancel()
+	switch o.what {
+	case wkFile:
+		o.f.Cancel()
+	case wkAdapter:
+		o.ad.Cancel()
+	default:
+		return // listeners and packet connections have no Cancel
+	}
 	for d := 0; d < 2; d++ {
 		if o.closed {
 			break // a callback run by Cancel closed the object: the remaining operations end with it (O4)
@@ -194,7 +279,16 @@ func (w *world) close(i int) {
 	if o.closed {
 		return
 	}
-	o.f.Close()
+	switch o.what {
+	case wkFile:
+		o.f.Close()
+	case wkListener:
+		o.l.Close()
+	case wkPacket:
+		o.pc.Close()
+	case wkAdapter:
+		o.ad.Close()
+	}
 	o.closed = true
 	o.cur[0], o.cur[1] = -1, -1
 }
